@@ -20,6 +20,7 @@ package main
 //          websocket sink (nhooyr.io/websocket, the module /repo uses)
 
 import (
+	"bufio"
 	"bytes"
 	"context"
 	"encoding/json"
@@ -32,7 +33,6 @@ import (
 	"net"
 	"net/http"
 	"os"
-	"regexp"
 	"sort"
 	"strings"
 	"sync"
@@ -1092,7 +1092,6 @@ func c08OracleWSFault(in *c08In, obs Sx) (string, string) {
 
 // ---- mode connect: the one send Connect makes itself (the initial presence)
 
-var c08ReID = regexp.MustCompile(`id=["']([^"']*)["']`)
 
 const c08SrvHeader = "<?xml version='1.0'?><stream:stream xmlns='jabber:client' xmlns:stream='http://etherx.jabber.org/streams' id='%s' from='localhost' version='1.0'>"
 
@@ -1100,43 +1099,54 @@ const c08SrvHeader = "<?xml version='1.0'?><stream:stream xmlns='jabber:client' 
 // resets the connection at once or keeps reading; got receives everything read after the bind.
 func c08Negotiate(c net.Conn, reset bool, got chan<- string) {
 	defer close(got)
-	var buf bytes.Buffer
-	readUntil := func(marker string) (string, bool) {
-		tmp := make([]byte, 65536)
+	// The client's side is read as XML, not as bytes: quote style, attribute order, empty-element spelling
+	// and the XML declaration are the library's to choose. A bufio.Reader is an io.ByteReader, so the
+	// decoders read through it without a buffer of their own and a new one can take over after a restart.
+	br := bufio.NewReader(c)
+	nextStart := func(d *xml.Decoder, local string) (xml.StartElement, bool) {
 		for {
-			if i := strings.Index(buf.String(), marker); i >= 0 {
-				return string(buf.Next(i + len(marker))), true
-			}
 			c.SetReadDeadline(time.Now().Add(10 * time.Second))
-			n, err := c.Read(tmp)
-			buf.Write(tmp[:n])
+			tok, err := d.Token()
 			if err != nil {
-				return "", false
+				return xml.StartElement{}, false
+			}
+			if se, ok := tok.(xml.StartElement); ok {
+				return se, se.Name.Local == local
 			}
 		}
 	}
-	steps := []struct{ wait, reply string }{
-		{"version='1.0'>", fmt.Sprintf(c08SrvHeader, "id1") + "<stream:features><mechanisms xmlns='urn:ietf:params:xml:ns:xmpp-sasl'><mechanism>PLAIN</mechanism></mechanisms></stream:features>"},
-		{"</auth>", "<success xmlns='urn:ietf:params:xml:ns:xmpp-sasl'/>"},
-		{"version='1.0'>", fmt.Sprintf(c08SrvHeader, "id2") + "<stream:features><bind xmlns='urn:ietf:params:xml:ns:xmpp-bind'/></stream:features>"},
-		{"</iq>", ""},
+	fail := func() { c.Close() }
+	d := xml.NewDecoder(br)
+	if _, ok := nextStart(d, "stream"); !ok {
+		fail()
+		return
 	}
-	for _, st := range steps {
-		req, ok := readUntil(st.wait)
-		if !ok {
-			c.Close()
-			return
-		}
-		reply := st.reply
-		if reply == "" {
-			id := ""
-			if m := c08ReID.FindStringSubmatch(req); m != nil {
-				id = m[1]
-			}
-			reply = "<iq type='result' id='" + id + "'><bind xmlns='urn:ietf:params:xml:ns:xmpp-bind'><jid>u@localhost/r</jid></bind></iq>"
-		}
-		c.Write([]byte(reply))
+	c.Write([]byte(fmt.Sprintf(c08SrvHeader, "id1") + "<stream:features><mechanisms xmlns='urn:ietf:params:xml:ns:xmpp-sasl'><mechanism>PLAIN</mechanism></mechanisms></stream:features>"))
+	if _, ok := nextStart(d, "auth"); !ok || d.Skip() != nil {
+		fail()
+		return
 	}
+	c.Write([]byte("<success xmlns='urn:ietf:params:xml:ns:xmpp-sasl'/>"))
+	d = xml.NewDecoder(br) // the stream is restarted
+	if _, ok := nextStart(d, "stream"); !ok {
+		fail()
+		return
+	}
+	c.Write([]byte(fmt.Sprintf(c08SrvHeader, "id2") + "<stream:features><bind xmlns='urn:ietf:params:xml:ns:xmpp-bind'/></stream:features>"))
+	iq, ok := nextStart(d, "iq")
+	if !ok || d.Skip() != nil {
+		fail()
+		return
+	}
+	id := ""
+	for _, at := range iq.Attr {
+		if at.Name.Local == "id" && at.Name.Space == "" {
+			id = at.Value
+		}
+	}
+	var esc bytes.Buffer
+	xml.EscapeText(&esc, []byte(id))
+	c.Write([]byte("<iq type='result' id='" + esc.String() + "'><bind xmlns='urn:ietf:params:xml:ns:xmpp-bind'><jid>u@localhost/r</jid></bind></iq>"))
 	if reset {
 		if tc, ok := c.(*net.TCPConn); ok {
 			tc.SetLinger(0) // the server goes away: connection reset
@@ -1145,6 +1155,7 @@ func c08Negotiate(c net.Conn, reset bool, got chan<- string) {
 		return
 	}
 	// healthy: whatever comes within a short while
+	var buf bytes.Buffer
 	deadline := time.Now().Add(3 * time.Second)
 	tmp := make([]byte, 65536)
 	for time.Now().Before(deadline) {
@@ -1152,7 +1163,7 @@ func c08Negotiate(c net.Conn, reset bool, got chan<- string) {
 			break
 		}
 		c.SetReadDeadline(time.Now().Add(100 * time.Millisecond))
-		n, _ := c.Read(tmp)
+		n, _ := br.Read(tmp)
 		buf.Write(tmp[:n])
 	}
 	got <- buf.String()
